@@ -497,3 +497,62 @@ func checkUniqueNameComparison(c *core.Ctx, rule string) {
 	c.Floor(rule, 1, "callers of the user-facing name matcher")
 	_ = n
 }
+
+// checkJoinNameCollisions (JOINDUP): a join's output knows its columns by the names of both sides. Two sides with an
+// equally named column (the same table twice without distinct aliases) cannot both be reached by name — one shadows
+// the other, `a.k = a.k` compares a column with itself and SELECT * prints columns without names — so every join must
+// reject the collision when it merges the sides' name mappings.
+func checkJoinNameCollisions(c *core.Ctx, rule string) {
+	p := c.Prog
+	rejects := func(fr *core.FuncRef) bool {
+		found := false
+		ast.Inspect(fr.Decl.Body, func(n ast.Node) bool {
+			is, ok := n.(*ast.IfStmt)
+			if !ok || is.Init == nil {
+				return true
+			}
+			as, ok := is.Init.(*ast.AssignStmt)
+			if !ok || len(as.Lhs) != 2 || len(as.Rhs) != 1 {
+				return true
+			}
+			if _, isIx := as.Rhs[0].(*ast.IndexExpr); !isIx || core.ExprStr(is.Cond) != core.ExprStr(as.Lhs[1]) {
+				return true
+			}
+			ast.Inspect(is.Body, func(m ast.Node) bool {
+				if call, ok := m.(*ast.CallExpr); ok && core.ExprStr(call.Fun) == "panic" {
+					found = true
+				}
+				return true
+			})
+			return true
+		})
+		return found
+	}
+	for _, typ := range []string{"StreamJoin", "OuterJoin", "LookupJoin"} {
+		fn := p.Func("logical", "(*"+typ+").Typecheck")
+		key := "logical.(*" + typ + ").Typecheck/equally named columns"
+		if fn == nil {
+			c.Unknown(rule, key, 0, "anchor not found")
+			continue
+		}
+		c.SawFunc("logical.(*" + typ + ").Typecheck")
+		ok := rejects(fn)
+		if !ok {
+			info := fn.Info()
+			ast.Inspect(fn.Decl.Body, func(n ast.Node) bool {
+				call, isCall := n.(*ast.CallExpr)
+				if !isCall || len(call.Args) < 2 {
+					return true
+				}
+				for _, fr := range p.AllFuncs("logical") {
+					if core.Rel(fr.Pkg) == "logical" && p.FName(fr) == p.CalleeName(info, call) && fr.Decl.Body != nil && rejects(fr) {
+						ok = true
+					}
+				}
+				return true
+			})
+		}
+		c.Decide(ok, rule, key, fn.Decl.Pos(), 1, "sides with an equally named column are rejected",
+			"the join merges the name mappings of its sides without rejecting equal names: with the same table twice under one alias one side's columns shadow the other's — `a.k = a.k` compares a column with itself, and SELECT * prints columns with empty names")
+	}
+}
